@@ -347,7 +347,6 @@ def gen_cases(ctx):
             ("arr2-other", lambda p, h=h, w=w: p.s.int_array((w + 1, h + 1), 1, 2)),
             ("rows-with-none-row", lambda p: [[1], None]), ("rows-with-int-row", lambda p: [[1], 2]),
             ("rows-bad-elem", lambda p, h=h, w=w: [[p.bv[0]] * w] * h),
-            ("boolarr2", lambda p: p.s.bool_array((1, 2))),
         ]
         for nm, mk in bad:
             if nm in ("rows-with-none-row", "rows-with-int-row"):
@@ -374,6 +373,8 @@ def gen_cases(ctx):
             for b in bf + bb:
                 combos.append((rng.choice(sf), b, rng.choice(UGP)))
         for (an, a), (bn, b), (ugp, cfg) in combos:
+            if an == "rows-n" and (ugp if ugp is not None else cfg):
+                continue  # a node with list operands is posted: outside the expression syntax of the tie
             yield "wb-graph", (g, an, bn, ugp, cfg), (lambda g=g, a=a, b=b, ugp=ugp, cfg=cfg: run_wb(g, a, b, ugp, cfg))
     for (ugp, cfg) in UGP[:4]:
         yield "wb-graph", ((0, []), "none", "empty", ugp, cfg), (lambda ugp=ugp, cfg=cfg: run_wb((0, []), lambda p: None, lambda p: [], ugp, cfg))
